@@ -304,6 +304,21 @@ func TestC16ReuseStateMachine(t *testing.T) {
 				m.newSince = false
 				m.note("reset")
 			},
+			"overwriteInPlace": func(rt *rapid.T) {
+				// a direct write into the column's memory (no Reset, no Append): caches get no signal
+				ow, ok := m.col.(gen.Overwriter)
+				if !ok || len(m.model) == 0 {
+					return
+				}
+				i := rapid.IntRange(0, len(m.model)-1).Draw(rt, "row")
+				v := k.Value.Draw(rt, "v")
+				if !ow.Overwrite(i, v) {
+					return
+				}
+				m.model[i] = v
+				m.newSince = true
+				m.note("overwrite[%d]", i)
+			},
 			"prepare": func(rt *rapid.T) {
 				if _, ok := m.col.Column().(proto.Preparable); !ok {
 					rt.Skip("not preparable")
